@@ -41,6 +41,9 @@ func recvCorpus() []struct {
 		{0, []rop{dgood(0, []byte("ABC")), {kind: 'C'}, dgood(1, []byte("DEF")), rd(8), rd(8)}},        // local close: later data must be refused, not panic
 		{0, []rop{{kind: 'C'}, dgood(0, []byte("ABC")), dgood(0, []byte("ABC"))}},
 		{0, []rop{dgood(0, nil), dgood(1, []byte("Z")), rd(4)}},
+		// both directions at once on one connection
+		{0, []rop{{kind: 'w', data: []byte("hello")}, dgood(0, []byte("ABC")), {kind: 'w', data: []byte("wo")}, bad(1, "REVG!!!!", "corrupt"), {kind: 'w', data: []byte("rld!")}, dgood(1, []byte("DEF")), rd(16), {kind: 'C'}}},
+		{8, []rop{dgood(0, []byte("ABCDEF")), {kind: 'w', data: []byte("xy")}, {kind: 'c'}, {kind: 'w', data: []byte("late")}, rd(16), rd(4)}},
 	}
 }
 
@@ -73,6 +76,12 @@ func randRecv(rnd *common.Rand) (int, []rop) {
 		case k == 11 && !closed && rnd.Chance(1, 2):
 			closed = true
 			ops = append(ops, rop{kind: "cC"[rnd.Intn(2)]})
+		case k == 12 || k == 13:
+			b := make([]byte, rnd.Intn(9))
+			for j := range b {
+				b[j] = byte(rnd.Intn(256))
+			}
+			ops = append(ops, rop{kind: 'w', data: b})
 		default:
 			ops = append(ops, rop{kind: 'r', n: 1 + rnd.Intn(9)})
 		}
@@ -141,6 +150,23 @@ func randSend(rnd *common.Rand, big bool) (bool, uint16, []sop) {
 	return acked, bs, ops
 }
 
+// RunWaits runs the scenarios in which a caller blocks on the stream (Read
+// woken by data / close, stale signal, Close failing at each step): C06 uses
+// them as its in-band bytestream instance.
+func RunWaits(r *common.Run) {
+	r.Mark("case ibb-wake 0")
+	runWake(r, false)
+	r.Mark("case ibb-wake 1")
+	runWake(r, true)
+	r.Mark("case ibb-wake 2")
+	runStale(r)
+	for i, f := range []string{"none", "flush", "send", "reply", "deadline"} {
+		r.Mark("case ibb-close-fail %d", i)
+		runCloseFail(r, f, false)
+		runCloseFail(r, f, true)
+	}
+}
+
 // Run is the C15 runner.
 func Run(r *common.Run) error {
 	if r.Replay != "" {
@@ -165,6 +191,9 @@ func Run(r *common.Run) error {
 				}
 				runWake(r, false)
 				runWake(r, true)
+			case "close":
+				runCloseFail(r, f[2], false)
+				runCloseFail(r, f[2], true)
 			case "open":
 				runSend(r, f[2] == "1", true, 0, nil, "replay")
 			case "emit":
@@ -175,6 +204,21 @@ func Run(r *common.Run) error {
 				}
 			}
 		}
+		return nil
+	}
+	// free-running concurrent use of both directions (the race-detector run is this plus the
+	// forced wake-up and close-fail scenarios)
+	for i, carrier := range []string{"iq", "message"} {
+		r.Mark("case duplex-concurrent %d", i)
+		runDuplexConcurrent(r, carrier, r.Pick(20, 60))
+	}
+	if r.Race() {
+		for i := 0; i < 6; i++ {
+			r.Mark("case duplex-concurrent-race %d", i)
+			runDuplexConcurrent(r, []string{"iq", "message"}[i%2], 40+10*i)
+		}
+		RunWaits(r)
+		r.Notes = append(r.Notes, "race-detector run: concurrent duplex scenarios, forced wake-up and close-fail scenarios only")
 		return nil
 	}
 	n := 0
@@ -195,9 +239,35 @@ func Run(r *common.Run) error {
 	runWake(r, true)
 	r.Mark("case wake 2")
 	runStale(r)
+	for i, f := range []string{"none", "flush", "send", "reply", "deadline"} {
+		r.Mark("case close-fail %d", i)
+		runCloseFail(r, f, false)
+		runCloseFail(r, f, true)
+	}
 	r.Mark("case open")
 	runSend(r, false, true, 0, nil, "send-corpus")
 	runSend(r, false, false, 16, nil, "send-corpus")
+	r.Mark("case open-fail")
+	runOpenFail(r, "send")
+	runOpenFail(r, "silent")
+	// the tail of a write that is not a multiple of three: every length, with / without Flush,
+	// closed by either side, both carriers, opened by either side
+	nt := 0
+	for _, opener := range []bool{false, true} {
+		for _, carrier := range []string{"iq", "message"} {
+			for n := 0; n <= 7; n++ {
+				for _, flush := range []bool{false, true} {
+					for _, peerCloses := range []bool{false, true} {
+						r.Mark("case tail %d", nt)
+						nt++
+						runTail(r, opener, carrier, n, flush, peerCloses)
+					}
+				}
+			}
+		}
+	}
+	r.Mark("case wrap-quick")
+	runWrapQuick(r)
 	for i, c := range []struct {
 		acked bool
 		bs    uint16
